@@ -43,6 +43,7 @@ LISTS = {
     'G4': f'u16, u32, {V}<Ce>',                  # Ce: == ignores the low bit (not bytewise identity) although the type is trivially copyable and padding-free
     'G5': f'{F}<Ce>, Ce',
     'S16': f'{F}<u16>',                          # one multi-byte field: byte order != numeric order
+    'U1': f'u16, {V}<u32>, u8',                   # no AlignAs at all: the element's block size is counted in bytes, so assignments between unequal allocators can reuse the block (C12)
     'R1': f'u32, {F}<u32>',                     # one trivially swappable/assignable run of 4 + 4n bytes, n up to 15 (C11)
 }
 TWO_SPAN = {'F2', 'V3', 'M1', 'M2', 'N4', 'FF'}
@@ -531,6 +532,7 @@ def elem_ob(prop, lid, op, akind='ae', aflags=None):
     fl = aflags if aflags is not None else ALLOC_KINDS[akind][0]
     d = [f'-DLIST={LISTS[lid]}', f'-DOP={op}', f'-DAFLAGS=({fl})']
     if lid in TWO_SPAN: d.append('-DSMAX=1')
+    if prop == 'C12' and op == 'OP_ELEM_ASSIGN': d.append('-DTWO_ASSIGN=1')  # two assignments in a row to the same target
     return dict(prop=prop, name=f"elem/{lid}/{akind}/{op[3:].lower()}", harness='h_elem.cpp', defines=d, entry='h_entry', cfg=dict(slack='min', budget_s=900), list=lid)
 
 
@@ -539,7 +541,7 @@ def pool_elem(prop, lists, akinds=('ae', 'st-ne', 'prop-ne')):
 
 
 def c12(tier, seed):
-    return pool_elem('C12', CORE + ['V4', 'N4'], akinds=('ae', 'st-ne', 'prop-ne') if tier == 'quick' else tuple(ALLOC_KINDS))
+    return pool_elem('C12', CORE + ['V4', 'N4', 'U1'], akinds=('ae', 'st-ne', 'prop-ne') if tier == 'quick' else tuple(ALLOC_KINDS))
 
 
 def cmp_ob(prop, lid, part, domain=0, smax=None, kv=2, indep=False):
